@@ -160,7 +160,21 @@ Fixpoint buildv (p : pt) (en en2 : env) (mm : mmap) (t : top) {struct p} : top :
   | Single b => new_subprogram (buildv b en en2 mm fresh) t
   | Pass b => buildv b en en2 mm t
   end.
-Definition updated_program (p : pt) (en en2 : env) (mm : mmap) : option loop := to_program (buildv p en en2 mm fresh).
+(* buildv alone would place the windows behind an updated repetition with the NEW durations (the functional builder
+   recomputes the body duration); in the real program those offsets, the mirrored windows and the waveforms of
+   flattened subprograms were fixed when the program was built.  So: shape, waveforms and own windows of the program
+   built under en, repetition counts of the one built with the counts of en2 (same shape: every decision uses en). *)
+Fixpoint zip_rep (a b : loop) {struct a} : loop :=
+  match a, b with
+  | Loop _ wf ms ch, Loop n _ _ ch' =>
+      Loop n wf ms ((fix go (l l' : list loop) : list loop :=
+                       match l, l' with x :: r, y :: r' => zip_rep x y :: go r r' | _, _ => [] end) ch ch')
+  end.
+Definition updated_program (p : pt) (en en2 : env) (mm : mmap) : option loop :=
+  match to_program (build p en mm fresh), to_program (buildv p en en2 mm fresh) with
+  | Some a, Some b => Some (zip_rep a b)
+  | _, _ => None
+  end.
 
 (* ---- which assignments the code rejects, and with which kind of error: the FIRST failing check in the order the
    code performs them (validate_scope of a MappingPT, count / range evaluation, the node's own declarations, then the
@@ -174,6 +188,15 @@ Inductive rkind :=
 | KRangeNotInt       (* ValueError from checked_int_cast (ForLoopPT range) *)
 | KStepZero          (* ValueError from range(.., .., 0) *)
 | KAtomicDur.        (* the waveform constructor of an atomic composite refuses (unequal durations, ...) *)
+
+(* the exception class of each kind (EAnyc: the class depends on the waveform class that refuses) *)
+Definition kclass (k : rkind) : eclass :=
+  match k with
+  | KConstraint => EConstraint
+  | KNegWindow | KRangeNotInt | KStepZero => EValue
+  | KCountNotInt => ENotInt
+  | KAtomicDur => EAnyc
+  end.
 
 Definition orelse (a b : option rkind) : option rkind := match a with Some k => Some k | None => b end.
 Fixpoint first_err (l : list (option rkind)) : option rkind :=
